@@ -59,6 +59,9 @@ pub struct ConcJob {
     /// echoed in every record so that a record can be traced back to its job
     #[serde(default)]
     pub tag: String,
+    /// log at most this many distinct outcomes per program (0 = all)
+    #[serde(default)]
+    pub max_log: usize,
 }
 fn hang_default() -> u64 {
     20000
@@ -224,6 +227,9 @@ fn run_once(
         } else {
             let a = w.addr();
             let n = names.get(&a).cloned().unwrap_or_else(|| {
+                if let Some(tag) = sched::tag_of(a) {
+                    return tag.to_string();
+                }
                 let l = aux.len() + 1;
                 aux.entry(a).or_insert_with(|| format!("aux{}", l)).clone()
             });
@@ -268,6 +274,7 @@ pub fn cmd_conc(args: &[String]) -> i32 {
         };
         let mut ex = Explorer { stack: Vec::new() };
         let mut runs_here = 0usize;
+        let mut logged_here = 0usize;
         loop {
             // fresh caches for every schedule
             let (threads, _line, mut cur) = runner.prepare(&script, "reset");
@@ -383,7 +390,10 @@ pub fn cmd_conc(args: &[String]) -> i32 {
                     let is_new = distinct_finals.insert(fin_key);
                     let panicked = rr.status.iter().any(|s| matches!(s, Status::Panicked(_)))
                         || res.iter().any(|r| r.panic);
-                    if is_new || log_all || panicked {
+                    let bad_state = false;
+                    let within = job.max_log == 0 || logged_here < job.max_log;
+                    if ((is_new && within) || log_all || panicked) && !bad_state {
+                        logged_here += 1;
                         let mut line = runner.header_line(&script, "quiesce", 1, &cur2);
                         if let Value::Object(m) = &mut line {
                             m.insert("prog".into(), json!(prog.id));
